@@ -125,6 +125,23 @@ dhcp-policies:
   - match-subnet: 192.0.2.0/24
     apply-range: {start: 192.0.2.2, end: 192.0.2.3}
 ";
+// K9: both ways of giving addresses at once -- a top-level `addresses` prefix covering the
+// receiving address (its implied pool: the hosts of the prefix minus the server's own address
+// minus every address a policy names) AND a written policy with its own address for one client.
+// The written policy replaces the implied pool for that client, in DISCOVER and REQUEST alike.
+const K9_TEXT: &str = "---
+addresses: [192.0.2.0/29]
+dhcp-policies:
+  - match-hardware-address: 02:00:00:00:00:0a
+    apply-address: 192.0.2.5
+";
+fn k9_pool(s: Ipv4Addr, c: &[u8]) -> Option<Vec<Ipv4Addr>> {
+    if in1(s) {
+        if c == MAC_A { Some(vec![ip("192.0.2.5")]) } else { Some([2u8, 3, 4, 6].iter().map(|x| Ipv4Addr::new(192, 0, 2, *x)).collect()) }
+    } else {
+        None
+    }
+}
 fn k8_pool(s: Ipv4Addr, _c: &[u8]) -> Option<Vec<Ipv4Addr>> {
     if in1(s) { Some(vec![ip("192.0.2.2"), ip("192.0.2.3")]) } else { None }
 }
@@ -165,6 +182,7 @@ pub fn all_cfgs() -> Result<Vec<Cfg>, String> {
         ("K6", K6_TEXT, k1_pool, &[IF1]),
         ("K7", K7_TEXT, k1_pool, &[IF1]),
         ("K8", K8_TEXT, k8_pool, &[IF1]),
+        ("K9", K9_TEXT, k9_pool, &[IF1]),
     ];
     let mut out = vec![];
     for (name, text, pool_for, ifaces) in specs {
@@ -181,11 +199,16 @@ pub struct ClientSpec {
     pub clientid: Option<&'static [u8]>,
 }
 
-pub const CLIENTS: [ClientSpec; 3] = [
+pub const CLIENTS: [ClientSpec; 5] = [
     ClientSpec { name: "A", chaddr: MAC_A, clientid: None },
     ClientSpec { name: "B", chaddr: MAC_B, clientid: None },
     // Same hardware address as A but a client identifier: a different client.
     ClientSpec { name: "C", chaddr: MAC_A, clientid: Some(b"c") },
+    // Two RFC 4361 identifiers (type 255, IAID, DUID) with the SAME DUID (a link-layer-plus-time
+    // DUID) and different IAIDs -- two interfaces of one host, or two clones of one image: the
+    // identifier option differs, so they are different clients.  (Only in the alphabet's extras.)
+    ClientSpec { name: "D", chaddr: [0x02, 0, 0, 0, 0, 0x0d], clientid: Some(&[0xff, 0, 0, 0, 1, 0, 1, 0, 1, 0x2a, 0x2b, 0x2c, 0x2d, 0x02, 0, 0, 0, 0, 0x77]) },
+    ClientSpec { name: "E", chaddr: [0x02, 0, 0, 0, 0, 0x0e], clientid: Some(&[0xff, 0, 0, 0, 2, 0, 1, 0, 1, 0x2a, 0x2b, 0x2c, 0x2d, 0x02, 0, 0, 0, 0, 0x77]) },
 ];
 
 impl ClientSpec {
@@ -305,6 +328,8 @@ pub struct Alphabet {
 }
 
 pub struct AlphabetSpec<'a> {
+    /// also the two RFC 4361 clients (same DUID, different IAID), on the first configuration
+    pub rfc4361_clients: bool,
     pub cfgs: &'a [&'a str],
     pub clients: usize,
     pub addrs: &'a [&'a str],
@@ -370,6 +395,19 @@ pub fn build_alphabet(cfgs: &[Cfg], spec: &AlphabetSpec) -> Alphabet {
                 let mut m = MsgOp::basic(ci, iface, client, 3);
                 m.ciaddr = Some(ip(a));
                 m.serverid = Some(iface.octets().to_vec());
+                ops.push(Op::Msg(m));
+            }
+        }
+    }
+    // the two RFC 4361 clients (same DUID, different IAID), on the first configuration
+    if let Some((ci, cfg)) = cfgs.iter().enumerate().find(|(_, c)| spec.rfc4361_clients && spec.cfgs.contains(&c.name)) {
+        let iface = ip(cfg.ifaces[0]);
+        for client in 3..CLIENTS.len() {
+            ops.push(Op::Msg(MsgOp::basic(ci, iface, client, 1)));
+            ops.push(Op::Msg(MsgOp::basic(ci, iface, client, 3)));
+            if let Some(a) = spec.addrs.first() {
+                let mut m = MsgOp::basic(ci, iface, client, 1);
+                m.req = Some(ip(a));
                 ops.push(Op::Msg(m));
             }
         }
@@ -1443,7 +1481,7 @@ pub fn longlived_histories_born(cfgs: &[Cfg], alpha: &Alphabet, roots: &[State],
 /// (K4), two clients, one named address, a tick past the minimum lease and a long one.
 pub fn longlived_alphabet(cfgs: &[Cfg], thorough: bool) -> Alphabet {
     let ticks: &[i64] = if thorough { &[150, 301, 30000] } else { &[301, 30000] };
-    build_alphabet(cfgs, &AlphabetSpec { cfgs: &["K1", "K2", "K3", "K4"], clients: 2, addrs: &["192.0.2.9"], ticks })
+    build_alphabet(cfgs, &AlphabetSpec { rfc4361_clients: false, cfgs: &["K1", "K2", "K3", "K4"], clients: 2, addrs: &["192.0.2.9"], ticks })
 }
 
 /// Roots of the long-lived part: the empty store and the two-client deep root.
